@@ -65,6 +65,7 @@ type gen struct {
 	pending  map[TypeID]bool
 	roots    int // the first `roots` units take no provided inputs (fork), the last unit joins
 	errAliasDeclared bool
+	rootJoin bool // scenario of the C05 generator, see Gen
 	boxOfDeclared bool
 	ctxAliasDeclared bool
 	preferWant TypeID // an interface bound to a local provider's external result: a good requested type
@@ -538,6 +539,9 @@ func (g *gen) drawAsync(label string) bool {
 	if !g.allow("async") {
 		return false
 	}
+	if g.rootJoin && g.o.AsyncMode != "none" {
+		return len(g.units) <= 3 // the roots and their join run in goroutines, everything after them on the calling thread
+	}
 	if g.wide && g.o.AsyncMode != "none" {
 		// fan: the base units mostly stay on the calling thread, the fanned-out units mostly run in goroutines
 		if len(g.units) < 2 {
@@ -588,6 +592,17 @@ func Gen(rt *rapid.T, o Opts) *Case {
 		g.c.AddFeature("wide-fan")
 	} else if nUnits >= 3 {
 		g.roots = rapid.IntRange(0, min(5, nUnits-1)).Draw(rt, "roots")
+		if o.RootBias && rapid.IntRange(0, 5).Draw(rt, "rootjoin") == 5 {
+			// three input-free Async roots, an Async unit joining the first two, the third root
+			// reached later: pools are scarce exactly when the join is placed
+			g.rootJoin = true
+			g.roots = 3
+			nUnits = rapid.IntRange(5, 6).Draw(rt, "nrootjoin")
+			g.c.AddFeature("root-join")
+		} else if o.RootBias && nUnits >= 5 && rapid.Bool().Draw(rt, "manyroots") {
+			// several independent roots and consumers that join two or three of them
+			g.roots = rapid.IntRange(3, min(5, nUnits-2)).Draw(rt, "nroots")
+		}
 	}
 	for i := 0; i < nUnits; i++ {
 		g.last = i == nUnits-1 && nUnits > 1
@@ -624,7 +639,7 @@ func Gen(rt *rapid.T, o Opts) *Case {
 
 func (g *gen) genUnit(i int) {
 	// value unit?
-	if i > 0 && !g.last && g.want("value", "isvalue", 12) {
+	if i > 0 && !g.last && !(g.rootJoin && i <= 3) && g.want("value", "isvalue", 12) {
 		t := g.freshValueType(false, "valtype")
 		if g.c.T(t).Kind == KGeneric {
 			// keep values simple
@@ -696,6 +711,33 @@ func (g *gen) genUnit(i int) {
 		}
 	}
 	rootUnit := i < g.roots
+	if rootUnit && g.o.RootBias {
+		nParams = 0 // input-free roots
+	}
+	if g.rootJoin && i == 4 && !g.last {
+		// a synchronous unit hanging off the third root only
+		nParams = 0
+		for _, t := range g.supplied {
+			if g.supplierUnit[t] == 2 && t != CtxType {
+				g.consumed[t] = true
+				p.Params = append(p.Params, t)
+				break
+			}
+		}
+	}
+	if g.rootJoin && i == 3 && len(g.supplied) >= 2 {
+		// the join of the first two roots
+		nParams = 0
+		for u := 0; u < 2; u++ {
+			for _, t := range g.supplied {
+				if g.supplierUnit[t] == u && t != CtxType {
+					g.consumed[t] = true
+					p.Params = append(p.Params, t)
+					break
+				}
+			}
+		}
+	}
 	seen := map[TypeID]bool{}
 	for k := 0; k < nParams; k++ {
 		src := rapid.IntRange(0, 9).Draw(g.rt, "psrc")
